@@ -50,7 +50,7 @@ PROPS = {
                  names=[H("a"), H("ab"), H("b"), H("abc"), H("a:"), H("1:a"), H("a "), H(" a"), H("a:b"), H("a/b")],
                  sizes=[None, None, 1, 2, 0, -1, 3], lts=[None, 0, 1, 5, -1], wts=[None, 0, 1, -1],
                  probe_every=0, probe_around=True, bad_key_pct=45, no_sess_pct=4),
-            "C07", ["C07", "HOLDS", "FRESH"], (300, 6000)),
+            "C07", ["C07", "HOLDS", "FRESH", "C04:dead-key-renewed", "C04:dead-key-accepted"], (300, 6000)),   # a request on (n',k') that is accepted although no such hold exists acted on ANOTHER pair: cross-talk
     "C08": (prof(weights={"disc": 8, "unl": 22, "restart": 4, "ipcu": 3, "adv": 14}, probe_every=1, partial_pct=25,
                  noclear=[False, True], file=[True, True, True, False], bad_key_pct=10),
             "C08", ["C08", "HOLDS", "FRESH"], (300, 6000)),
@@ -74,7 +74,7 @@ PROPS = {
             "C01", ["C01", "HOLDS", "FRESH"], (250, 5000)),
     "C02": (prof(weights={"try": 30, "lock": 12, "unl": 26, "adv": 6, "cancel": 6}, lts=[None], probe_every=2, bad_key_pct=25),
             "C01", ["C02", "C01", "HOLDS"], (250, 5000)),
-    "C03": (prof(weights={"lock": 30, "try": 10, "unl": 18, "cancel": 8, "adv": 22, "disc": 6}, sizes=[None, 1, 1, 2],
+    "C03": (prof(weights={"lock": 30, "try": 10, "unl": 18, "cancel": 8, "adv": 22, "disc": 6}, sizes=[None, 1, 1, 2], fifo_pct=6,
                  wts=[None, 0, 1, 1, 2, 3], lts=[None, 1, 2, 3], probe_every=2,
                  advs=[0, 1, 999999999, 1000000000, 1000000001, 2000000000, 3000000000]),
             "C03", ["C03", "HOLDS"], (250, 5000)),
